@@ -659,6 +659,9 @@ func ioOpenFile(L *LState) int {
 	path := L.CheckString(1)
 	if L.GetTop() == 1 {
 		L.Push(LString("r"))
+	} else if L.Get(2) == LNil {
+		// luaL_optstring: an explicit nil mode is the default mode
+		L.Replace(2, LString("r"))
 	}
 	mode := os.O_RDONLY
 	perm := 0600
